@@ -39,3 +39,22 @@ M("c08.prefix-check-first-word-only", "C08", TE + "builder.py",
   "v1_tags = [tag for word in words for tag in word.split(\",\")]", "v1_tags = words[:1]")
 M("c08.v1-string-not-split", "C08", TE + "builder.py", "tag_expression_parts = tag_expression_parts.split()",
   "tag_expression_parts = [tag_expression_parts]")
+
+# ---- C01 -------------------------------------------------------------------
+# Equivalent for the demanded behaviour (not kept): dropping `hook_failures > 0` (every hook failure also marks an element
+# or aborts), dropping the undefined-steps disjunct (only changes the dry-run verdict, which is not demanded), not counting
+# a KeyboardInterrupt caught in the feature loop (the run is aborted anyway).
+RUN = "behave/runner.py"
+MOD = "behave/model.py"
+M("c01.verdict-ignores-cleanup-failures", ["C01"], RUN, "                  or cleanups_failed)", "                  )")
+M("c01.outline-run-returns-false", ["C01"], MOD, 'runner.context._set_root_attribute("active_outline", None)\n        return failed_count > 0',
+  'runner.context._set_root_attribute("active_outline", None)\n        return False')
+M("c01.container-ignores-failing-item", ["C01"], MOD, "                failed = run_item.run(runner)\n                if failed:\n                    failed_count += 1",
+  "                failed = run_item.run(runner)\n                if failed and not isinstance(run_item, Rule):\n                    failed_count += 1")
+M("c01.main-exit-zero-on-hook-only", ["C01"], "behave/__main__.py", "    return_code = 0\n    if failed:\n        return_code = 1",
+  "    return_code = 0\n    if failed and not (runner and runner.hook_failures and not runner.aborted):\n        return_code = 1")
+M("c01.verdict-ignores-aborted", ["C01"], RUN, "failed = ((failed_count > 0) or self.aborted or", "failed = ((failed_count > 0) or")
+M("c01.scenario-cleanup-error-not-failed", ["C01"], MOD, "            self.set_status(Status.error)\n            failed = True\n\n        # -- CAPTURED-OUTPUT:",
+  "            self.set_status(Status.error)\n\n        # -- CAPTURED-OUTPUT:")
+M("c01.pending-step-keeps-going", ["C01", "C02"], MOD, "                self.status = Status.pending\n                if dry_run_mode:",
+  "                self.status = Status.pending_warn\n                if dry_run_mode:")
